@@ -1,6 +1,6 @@
 (* C17: parsing the printed tokens of an expression gives the expression back (ModelExpr.v).
-   The printer inserts parentheses exactly where the parser needs them, except for a comparison that is the left
-   operand of a comparison (read back as a chain) -- see roundtrip_chain_counterexample. *)
+   The printer inserts parentheses where the parser needs them; the pre-fix printer did not for a comparison that is
+   the left operand of a comparison (read back as a chain) -- see prefix_roundtrip_chain_counterexample. *)
 From Coq Require Import String Ascii List Bool Arith Lia.
 From Print Require Import ModelExpr.
 Import ListNotations.
@@ -225,17 +225,20 @@ Proof. reflexivity. Qed.
 Lemma ptoks_usub : forall a p, ptoks (EUSub a) p = TOp OpSub :: ptoks a prec_usub.
 Proof. reflexivity. Qed.
 
+Definition lhs_prec (o : binop) : nat := if is_cmp o then op_prec o + 1 else op_prec o.
+
 Definition bin_body (o : binop) (l r : expr string) : list token :=
-  (ptoks l (op_prec o) ++ TOp o :: ptoks r (op_prec o + 1))%list.
+  (ptoks l (lhs_prec o) ++ TOp o :: ptoks r (op_prec o + 1))%list.
 
 Lemma ptoks_bin : forall o l r p,
   ptoks (EBin o l r) p =
   if Nat.ltb (op_prec o) p then (TLP :: bin_body o l r ++ [TRP])%list else bin_body o l r.
 Proof.
-  intros. unfold ptoks, bin_body. cbn [print_toks]. cbv zeta.
+  intros. unfold ptoks, bin_body, lhs_prec. cbn [print_toks]. cbv zeta.
+  set (lp := if is_cmp o then op_prec o + 1 else op_prec o).
   destruct (Nat.ltb (op_prec o) p).
   - change (strip (TLP :: ?r)) with (TLP :: strip r). cbn [strip filter is_sp negb].
-    fold (strip ((print_toks l (op_prec o) ++ [TSp; TOp o; TSp] ++ print_toks r (op_prec o + 1)) ++ [TRP])).
+    fold (strip ((print_toks l lp ++ [TSp; TOp o; TSp] ++ print_toks r (op_prec o + 1)) ++ [TRP])).
     rewrite !strip_app. reflexivity.
   - rewrite !strip_app. reflexivity.
 Qed.
@@ -375,8 +378,7 @@ Proof.
       apply side_sub. intros o l r _. left. apply op_prec_lt_usub. }
     rewrite E. eapply loop_mono; eauto. lia.
   - (* EBin *)
-    cbn [wf_expr] in Hwf. apply andb_true_iff in Hwf. destruct Hwf as [Hwf Hchain].
-    apply andb_true_iff in Hwf. destruct Hwf as [Wl Wr].
+    cbn [wf_expr] in Hwf. apply andb_true_iff in Hwf. destruct Hwf as [Wl Wr].
     set (q := op_prec o) in *.
     (* the unparenthesised form, at any level p0 <= q *)
     assert (forall p0 rest0 f0 R0, p0 <= q -> stops (need o) rest0 -> nolb rest0 ->
@@ -385,17 +387,20 @@ Proof.
     { intros p0 rest0 f0 R0 Hp0 Hst Hnl HL.
       unfold bin_body. rewrite <- app_assoc. cbn [app]. fold q.
       replace (f0 + (cost e1 + cost e2 + 4)) with ((f0 + cost e2 + 4) + cost e1) by lia.
+      assert (q <= lhs_prec o) as Hlq by (unfold lhs_prec; fold q; destruct (is_cmp o); lia).
       apply IHe1; [exact Wl| |exact I|].
       - (* side condition of the left operand *)
         apply side_sub. intros o1 l1 r1 El.
-        destruct (Nat.lt_ge_cases (op_prec o1) q) as [Hlt|Hge]; [left; exact Hlt|].
+        destruct (Nat.lt_ge_cases (op_prec o1) (lhs_prec o)) as [Hlt|Hge]; [left; exact Hlt|].
         right. split; [lia|].
-        cbn [stops]. unfold need.
+        cbn [stops]. unfold need. fold q.
         destruct (is_cmp o1) eqn:C1; [|lia].
-        (* o1 is a comparison of precedence >= q; q = 30 would make e a comparison with a comparison on its left *)
+        (* o1 is a comparison that stays bare on the left of o: o cannot be a comparison (its left operand is
+           printed at 31), and every other operator of precedence <= 30 is below 30 *)
         assert (op_prec o1 = 30) as P30 by (destruct o1; cbn in *; congruence).
+        unfold lhs_prec in Hge. fold q in Hge.
         destruct (is_cmp o) eqn:C.
-        + subst e1. cbn in Hchain. rewrite C1 in Hchain. discriminate.
+        + assert (q = 30) by (subst q; destruct o; cbn in *; congruence). lia.
         + assert (q <> 30) by (subst q; destruct o; cbn in *; congruence). lia.
       - (* the loop continues with the operator *)
         replace (f0 + cost e2 + 4) with (S (f0 + cost e2 + 3)) by lia.
@@ -460,11 +465,10 @@ Proof.
       lia.
   - cbn in Hwf. destruct n; [discriminate|]. rewrite ptoks_const. cbn. lia.
   - cbn [wf_expr] in Hwf. rewrite ptoks_usub. cbn [length cost]. specialize (IHe Hwf prec_usub). lia.
-  - cbn [wf_expr] in Hwf. apply andb_true_iff in Hwf. destruct Hwf as [Hwf _].
-    apply andb_true_iff in Hwf. destruct Hwf as [Wl Wr].
+  - cbn [wf_expr] in Hwf. apply andb_true_iff in Hwf. destruct Hwf as [Wl Wr].
     rewrite ptoks_bin. cbn [cost].
-    specialize (IHe1 Wl (op_prec o)). specialize (IHe2 Wr (op_prec o + 1)).
-    assert (length (bin_body o e1 e2) = length (ptoks e1 (op_prec o)) + 1 + length (ptoks e2 (op_prec o + 1))) as L.
+    specialize (IHe1 Wl (lhs_prec o)). specialize (IHe2 Wr (op_prec o + 1)).
+    assert (length (bin_body o e1 e2) = length (ptoks e1 (lhs_prec o)) + 1 + length (ptoks e2 (op_prec o + 1))) as L.
     { unfold bin_body. rewrite app_length. cbn [length]. lia. }
     destruct (Nat.ltb _ _); cbn [length]; rewrite ?app_length; cbn [length]; lia.
 Qed.
@@ -503,13 +507,21 @@ Example wf_witness :
                       (ERead "x" [EBin OpMod (ERead "i" []) (EConst false "2")])) = true.
 Proof. reflexivity. Qed.
 
-(* without the hypothesis on comparisons the statement is false: (a == b) == c prints as a chain *)
-Lemma roundtrip_chain_counterexample :
+(* a comparison on the left of a comparison now keeps its parentheses *)
+Example chain_now_parenthesised :
+  let e := EBin OpEq (EBin OpEq (ERead "a" []) (ERead "b" [])) (ERead "c" []) in
+  expr_text e 0 = "(a == b) == c" /\ parse_expr (print_toks e 0) = Some e.
+Proof. vm_compute. auto. Qed.
+
+(* regression: with the printer as it was before the fix, (a == b) == c prints as a chain and reads back as
+   (a == b) and (b == c) *)
+Lemma prefix_roundtrip_chain_counterexample :
   exists e : expr string,
-    expr_text e 0 = "a == b == c" /\
-    parse_expr (print_toks e 0) =
+    wf_expr e = true /\
+    toks_text (print_toks_prefix e 0) = "a == b == c" /\
+    parse_expr (print_toks_prefix e 0) =
       Some (EBin OpAnd (EBin OpEq (ERead "a" []) (ERead "b" [])) (EBin OpEq (ERead "b" []) (ERead "c" []))) /\
-    parse_expr (print_toks e 0) <> Some e.
+    parse_expr (print_toks_prefix e 0) <> Some e.
 Proof.
   exists (EBin OpEq (EBin OpEq (ERead "a" []) (ERead "b" [])) (ERead "c" [])).
   repeat split; try (vm_compute; reflexivity). vm_compute. discriminate.
